@@ -41,6 +41,32 @@ ADDED = {
     "C20": "Unicode identifier-syntax edge classes, keywords in every letter case, three-value enum chains (a / A / a_1).",
 }
 
+# sixth round (DESIGN.md section 6): input classes and monitors added after twenty more independent seeded changes
+ADDED6 = {
+    "C01": "request media types without a schema; meaning-neutral annotations (deprecated, x- extensions, validation keywords); colliding property-name trios.",
+    "C02": "a naming scheme of declared names that class-name derivation rewrites (HTTPAlpha, beta_node, GammaV2), compared modulo derivation; models whose wire "
+           "keys crowd around one derived field name (two spellings + the de-collided spelling) in every order.",
+    "C03": "colliding property-name trios in the compositional grammar.",
+    "C04": "the Cookie header must carry exactly this call's cookie arguments (calls share one client; the replay carries the preceding calls); cookie parameters "
+           "in every document; request media types without a schema.",
+    "C06": "a sibling client without declared errors generated afterwards into the core the client under test shares.",
+    "C07": "request media types without a schema; long tags with a common 100+ character prefix; meaning-neutral annotations.",
+    "C08": "documents whose operations carry inline schemas, one of which makes parsing raise: rest state of the tracker after the whole load.",
+    "C09": "the no-op re-run in a fresh process with TMPDIR, and with the project root, reached through a symbolic link.",
+    "C10": "the real command line with post-processing ON (ruff child processes) traced at syscall level with strace -f -y, working directory = project root and "
+           "elsewhere; matching output under namespace-package ancestors (no __init__.py above the packages).",
+    "C11": "a shared core that IS the embedded core of the first client (core_package = '<first client>.core').",
+    "C12": "meaning-neutral annotations on operations, parameters, schemas and properties (a generator reacting to `deprecated` with an import becomes visible).",
+    "C13": "the shape catalogue as inline request and response bodies (every type expression in a signature).",
+    "C14": "variant names the sanitiser rewrites (CatV2, HTTPDog, eel_fish); several discriminator values mapped to one schema; a variant whose required "
+           "properties all carry defaults.",
+    "C16": "modules with postponed (PEP 563) and quoted annotations; nullable fields whose declared default is a value, not None.",
+    "C18": "two or three streams decoded concurrently on one event loop (chunk boundaries are where they interleave; delivery orders recorded) and fresh streams "
+           "decoded after one whose connection dropped in the middle of an event.",
+    "C19": "keyword order inside every schema object; typeless schemas carrying two kinds of structural keyword (properties next to oneOf / anyOf / allOf / enum).",
+    "C20": "a third property spelled like the de-collided field name (a / A / a_2); long names with a common 100+ character prefix.",
+}
+
 # id -> (category, technique, level text, level note, design ref)
 CHECKS = {
     "C15": ("exploration", "runtime monitoring: position x payload matrix through the real generator with AST-skeleton differential and literal read-back oracles",
@@ -51,14 +77,14 @@ CHECKS = {
             "exactly the original string constant.",
             "One base document; positions listed in the rule; skeleton comparison cannot see changes that keep node structure.",
             "DESIGN.md §4 C15"),
-    "C10": ("fault_enumeration", "runtime monitoring with fault injection: audit-hook file-system event log with an online containment policy and safety fence, before/after snapshots, stage / LINE-failpoint / ENOSPC faults",
+    "C10": ("fault_enumeration", "runtime monitoring with fault injection: audit-hook file-system event log with an online containment policy and safety fence, before/after snapshots, stage / LINE-failpoint / ENOSPC faults; strace -f syscall log for runs whose writers are child processes",
             "For 3 layouts x existing tree {equal, different, partially present} x force {off, on}: a fault-free run, every generation stage (load, parse, six emitters, "
             "post-processing, diff) failing at entry and at exit, OSError(ENOSPC) at the k-th write for every k, and a sys.monitoring LINE failpoint at the statements "
             "the fault-free run executed inside ClientGenerator.generate and the emitters (quick: every 6th, thorough: all; each a separate run). An audit hook records "
             "every write-open / remove / rename / mkdir / rmdir / rmtree under the sandbox project root (classified by effect) and the whole root is snapshotted "
             "(path, size, sha256, mtime_ns) before and after: without force nothing may be touched; in any mode only the output package, the core package and ancestor "
             "__init__.py files; stage and write faults must surface as a raise. Destructive calls outside the scratch root are fenced.",
-            "Post-processing children not run (stage failed at entry); for LINE failpoints only the effect oracles apply. One small document per configuration.",
+            "In the fault-injection runs post-processing children are not run (stage failed at entry); the fault-free command-line runs with post-processing on are traced with strace. For LINE failpoints only the effect oracles apply. One small document per configuration.",
             "DESIGN.md §4 C10"),
     "C11": ("exploration", "runtime monitoring: history workload with a fresh-interpreter import probe and needed-symbols check after every step; recording postcondition on _update_registry",
             "Histories of generate actions (client, document with a given declared error set, force on/off; with repetition and with documents changing under a "
@@ -203,6 +229,8 @@ def main() -> None:
             cat, tech, text, note, ref = CHECKS[pid]
             if pid in ADDED:
                 text = text + " Added while building: " + ADDED[pid]
+            if pid in ADDED6:
+                text = text + " Sixth round: " + ADDED6[pid]
             checks.append({
                 "property_id": pid,
                 "quick_cmd": f"./check {pid} --tier quick",
